@@ -21,3 +21,25 @@ func (idx *Index) VerifBuckets() []types.Position {
 func (idx *Index) VerifGC(ctx context.Context, scanFree bool) (int64, int, error) {
 	return idx.gc(ctx, scanFree)
 }
+
+// VerifRecords returns a copy of the record list currently in effect for the
+// bucket that key falls into (pool first, then disk), as seen by writers.
+func (idx *Index) VerifRecords(key []byte) ([]Record, error) {
+	bucket, err := idx.getBucketIndex(key)
+	if err != nil {
+		return nil, err
+	}
+	idx.bucketLk.RLock()
+	defer idx.bucketLk.RUnlock()
+	records, err := idx.getRecordsFromBucket(bucket)
+	if err != nil || records == nil {
+		return nil, err
+	}
+	var out []Record
+	for it := records.Iter(); !it.Done(); {
+		r := it.Next()
+		r.Key = append([]byte(nil), r.Key...)
+		out = append(out, r)
+	}
+	return out, nil
+}
